@@ -3,6 +3,7 @@ package liquid
 // C01 (tags) — every tag renderer with hostile bindings returns output or a SourceError.
 
 import (
+	"errors"
 	nd "github.com/osteele/liquid/zz_verifnd"
 	yaml "gopkg.in/yaml.v2"
 	"math"
@@ -24,6 +25,7 @@ func (c01Meth) None()                  {}
 func (c01Meth) Arg(x int) string       { return "a" }
 func (c01Meth) Ok() (string, error)    { return "ok", nil }
 func (c01Meth) Three() (int, int, int) { return 1, 2, 3 }
+func (c01Meth) Fail() (string, error)  { return "", errors.New("boom") }
 
 type c01Str string
 
@@ -102,7 +104,7 @@ var c01TagTemplates = []string{
 	"{% for i in (1..h) limit: 2 %}{{ i }}{% endfor %}",
 	"{% capture h %}x{% endcapture %}{{ h }}",
 	"{{ h }}{{ h.size }}{{ h.first }}{{ h[0] }}{{ h['k'] }}{{ h.A }}{{ h.b }}{{ h | size }}",
-	"{{ h.X }}{{ h.Y }}{{ h.Zone }}{{ h.None }}{{ h.Arg }}{{ h.Ok }}{{ h.Three }}{{ h[k] }}{% if h contains k %}c{% endif %}{% if h contains 'Zone' %}z{% endif %}",
+	"{{ h.X }}{{ h.Y }}{{ h.Zone }}{{ h.None }}{{ h.Arg }}{{ h.Ok }}{{ h.Three }}{{ h[k] }}{% if h contains k %}c{% endif %}{% if h contains 'Zone' %}z{% endif %}{{ h.Fail }}",
 	"{% assign q = h %}{{ q }}{% assign q = h | default: 1 %}{{ q }}",
 	"{% break %}{% continue %}",
 	"{% for i in (1..3) %}{% cycle 'a', 'b', 'c' %}{% cycle 'x' %}{% cycle 'g': 'm', 'n' %}{% cycle 'g': 'y' %}{% endfor %}{% tablerow i in (1..4) %}{% cycle 'p', 'q', 'r', 's' %}{% cycle 'z', 'w' %}{{ h }}{% endtablerow %}",
@@ -150,12 +152,14 @@ func VerifC01RangeLoops() {
 		return
 	}
 	nd.Assume(hi >= lo && (d < 0 || d > 1<<24))
-	k := nd.Choice(4)
+	k := nd.Choice(5)
 	t := []string{
 		"{% for i in (lo..hi) limit: 2 %}x{% endfor %}",
 		"{% assign r = (lo..hi) %}{{ r | size }}{{ r.size }}",
 		"{% assign r = (lo..hi) %}{{ r | first }}",
 		"{% assign r = (lo..hi) %}{{ r | join }}",
+		// a range has first, last and size at most: its Go methods are not template properties
+		"{{ (lo..hi).AsArray | size }}{{ (lo..hi).Len }}{{ (lo..hi).Index }}",
 	}[k]
 	out, err := vRender(t, Bindings{"lo": lo, "hi": hi})
 	switch k {
@@ -163,6 +167,8 @@ func VerifC01RangeLoops() {
 		nd.Assert(err == nil && out == "xx", "huge-range-loop-lazy")
 	case 1:
 		nd.Assert(err == nil, "huge-range-size")
+	case 4:
+		nd.Assert(err == nil || out == "", "huge-range-methods")
 	default:
 		nd.Assert(err != nil && out == "", "huge-range-array-refused")
 	}
